@@ -83,6 +83,18 @@ func init() {
 		l.p("def getPipesLibrarySort : Bool := %s", leanBool(libSort))
 		l.p("/-- the loop searches the insertion point with `sort.Search(cnt, …)` -/")
 		l.p("def getPipesSearchesOverCnt : Bool := %s", leanBool(searchOverCnt))
+		// newPPipe (pkg/pipe/ppipe.go) refuses a definition whose name or conditions are not valid UTF-8: an `if` whose condition
+		// calls utf8.ValidString on all three fields of its Pipe parameter and whose body returns
+		utf8Req := false
+		if pf := parseFile("pkg/pipe/ppipe.go"); pf != nil {
+			if nd := funcDeclPlain(pf, "newPPipe"); nd != nil {
+				utf8Req = c19RequiresUtf8(nd)
+			} else {
+				problem("pipe.newPPipe not found")
+			}
+		}
+		l.p("/-- `newPPipe` refuses a definition whose Name, TagsCond or FltCond is not valid UTF-8 (so every registered pipe can be written to pipes.dat unchanged) -/")
+		l.p("def newPPipeRequiresUtf8 : Bool := %s", leanBool(utf8Req))
 		cmp := libSort
 		if fd != nil && !libSort {
 			cmp = c19SearchComparesNames(fd)
@@ -484,4 +496,61 @@ func c19SearchComparesNames(fd *ast.FuncDecl) bool {
 		return false
 	})
 	return ok
+}
+
+// funcDeclPlain: a top-level function without receiver
+func funcDeclPlain(f *ast.File, name string) *ast.FuncDecl {
+	for _, d := range f.Decls {
+		if fd, ok := d.(*ast.FuncDecl); ok && fd.Recv == nil && fd.Name.Name == name {
+			return fd
+		}
+	}
+	return nil
+}
+
+// c19RequiresUtf8: some `if` statement at the top level of the function returns from its body and its condition mentions
+// utf8.ValidString(<x>.Name), utf8.ValidString(<x>.TagsCond) and utf8.ValidString(<x>.FltCond), each negated (directly, or the
+// whole conjunction negated). Local names are free.
+func c19RequiresUtf8(fd *ast.FuncDecl) bool {
+	for _, st := range fd.Body.List {
+		is, ok := st.(*ast.IfStmt)
+		if !ok {
+			continue
+		}
+		returns := false
+		for _, b := range is.Body.List {
+			if _, ok := b.(*ast.ReturnStmt); ok {
+				returns = true
+			}
+		}
+		if !returns {
+			continue
+		}
+		seen := map[string]bool{}
+		ast.Inspect(is.Cond, func(n ast.Node) bool {
+			c, ok := n.(*ast.CallExpr)
+			if !ok || len(c.Args) != 1 {
+				return true
+			}
+			se, ok := c.Fun.(*ast.SelectorExpr)
+			if !ok || se.Sel.Name != "ValidString" {
+				return true
+			}
+			if a, ok := c.Args[0].(*ast.SelectorExpr); ok {
+				seen[a.Sel.Name] = true
+			}
+			return true
+		})
+		negated := false
+		ast.Inspect(is.Cond, func(n ast.Node) bool {
+			if u, ok := n.(*ast.UnaryExpr); ok && u.Op.String() == "!" {
+				negated = true
+			}
+			return true
+		})
+		if seen["Name"] && seen["TagsCond"] && seen["FltCond"] && negated {
+			return true
+		}
+	}
+	return false
 }
